@@ -68,8 +68,8 @@ def unordered(specs):
     return out
 
 
-def spec_name(spec) -> str:
-    return "h" + "_".join("".join(map(str, b)) or "x" for b in spec)
+def spec_name(spec, flavour: str = "plain") -> str:
+    return "h" + "_".join("".join(map(str, b)) or "x" for b in spec) + ("_g" if flavour == "generic" else "")
 
 
 def closure(spec):
@@ -84,13 +84,23 @@ def closure(spec):
 
 
 # ------------------------------------------------------------------ module text
-def module_source(spec) -> str:
+def module_source(spec, flavour: str = "plain") -> str:
+    """flavour "generic": every root class is ``Generic[T]`` and is inherited from in parametrised form
+    (``class C1(C0[int])``), so that ``__orig_bases__`` and ``__bases__`` differ along the hierarchy."""
     n = len(spec)
-    out = ['"""Generated hierarchy module (mc.typeworld)."""', "from __future__ import annotations", "", ""]
+    out = ['"""Generated hierarchy module (mc.typeworld)."""', "from __future__ import annotations", ""]
+    generic = flavour == "generic"
+    if generic:
+        out += ["from typing import Generic, TypeVar", "", 'T = TypeVar("T")', ""]
+    out.append("")
     for i, bases in enumerate(spec):
         me = f"{USER_PREFIX}{i}"
         nxt = f"{USER_PREFIX}{(i + 1) % n}"
-        head = f"class {me}({', '.join(f'{USER_PREFIX}{b}' for b in bases)}):" if bases else f"class {me}:"
+        if generic:
+            rendered = [f"{USER_PREFIX}{b}[int]" if not spec[b] else f"{USER_PREFIX}{b}" for b in bases]
+            head = f"class {me}({', '.join(rendered)}):" if bases else f"class {me}(Generic[T]):"
+        else:
+            head = f"class {me}({', '.join(f'{USER_PREFIX}{b}' for b in bases)}):" if bases else f"class {me}:"
         out.append(head)
         out.append("    def __init__(self, x: int = 0) -> None:")
         out.append("        self.x = x")
@@ -121,7 +131,7 @@ def module_source(spec) -> str:
     return "\n".join(out)
 
 
-def write_module(root: str, pkg: str, spec) -> str:
+def write_module(root: str, pkg: str, spec, flavour: str = "plain") -> str:
     """Write the module for ``spec`` into package ``pkg`` under ``root``; return its dotted name."""
     d = os.path.join(root, pkg)
     os.makedirs(d, exist_ok=True)
@@ -129,9 +139,9 @@ def write_module(root: str, pkg: str, spec) -> str:
     if not os.path.exists(init):
         with open(init, "w") as fh:
             fh.write("")
-    name = spec_name(spec)
+    name = spec_name(spec, flavour)
     path = os.path.join(d, name + ".py")
-    src = module_source(spec)
+    src = module_source(spec, flavour)
     # never rewrite an identical file: shard processes share the directory the parent filled
     if not (os.path.exists(path) and open(path).read() == src):
         tmp = f"{path}.{os.getpid()}.tmp"
